@@ -50,14 +50,14 @@ Print Assumptions C20_results_independent_of_implicit_move.
 Theorem C20_results_independent_of_prior_memory :
   forall a b a' b' n cs,
     c_run_case GenCtor.eq_copy_inits_counters GenCtor.eq_copy_counters_from_source
-               GenCtor.eq_move_inits_counters GenCtor.eq_move_counters_from_source a b n cs
+               GenCtor.eq_move_inits_counters GenCtor.eq_move_counters_from_source a b GenCtor.eq_copy_assign_self_safe n cs
     = c_run_case GenCtor.eq_copy_inits_counters GenCtor.eq_copy_counters_from_source
-                 GenCtor.eq_move_inits_counters GenCtor.eq_move_counters_from_source a' b' n cs /\
+                 GenCtor.eq_move_inits_counters GenCtor.eq_move_counters_from_source a' b' GenCtor.eq_copy_assign_self_safe n cs /\
     c_run_case GenCtor.heq_copy_inits_counters GenCtor.heq_copy_counters_from_source
-               GenCtor.heq_move_inits_counters GenCtor.heq_move_counters_from_source a b n cs
+               GenCtor.heq_move_inits_counters GenCtor.heq_move_counters_from_source a b GenCtor.heq_copy_assign_self_safe n cs
     = c_run_case GenCtor.heq_copy_inits_counters GenCtor.heq_copy_counters_from_source
-                 GenCtor.heq_move_inits_counters GenCtor.heq_move_counters_from_source a' b' n cs.
-Proof. intros a b a' b' n cs. exact (conj (junk_independent _ _ a b a' b' n cs) (junk_independent _ _ a b a' b' n cs)). Qed.
+                 GenCtor.heq_move_inits_counters GenCtor.heq_move_counters_from_source a' b' GenCtor.heq_copy_assign_self_safe n cs.
+Proof. intros a b a' b' n cs. exact (conj (junk_independent _ _ _ a b a' b' n cs) (junk_independent _ _ _ a b a' b' n cs)). Qed.
 Print Assumptions C20_results_independent_of_prior_memory.
 
 (* map kind: ordered (std::map with operator<) and hashed (std::unordered_map with std::hash and ==)
